@@ -35,6 +35,7 @@ from ..report import Result
 from .. import taint, al
 from ..guards import Canon
 from .C20 import rng_rule
+from . import alg_common as A
 
 FUNCS = ["cp_als.cp_als", "cp_apr.cp_apr", "cp_apr.tt_cp_apr_mu", "cp_apr.tt_cp_apr_pdnr", "cp_apr.tt_cp_apr_pqnr", "hosvd.hosvd",
          "tucker_als.tucker_als", "gcp_opt.gcp_opt", "gcp.optimizers.StochasticSolver.solve", "gcp.optimizers.LBFGSB.solve"]
@@ -429,11 +430,35 @@ def effect_rule(prog: Program, res: Result, only: List[FuncInfo] = None) -> int:
     return n
 
 
+def scale_rule(prog: Program, res: Result) -> None:
+    """SCALE: the rank-selection threshold of hosvd is homogeneous in the data.  The Gram eigenvalues it is compared with scale as
+    c^2 under X -> c*X, so the selected ranks (and with them the model, up to the factor c) are independent of the scale of the data
+    exactly when every operand of the threshold carries ||X||^2.  Structural necessary condition: no summand / max / min operand of
+    the threshold is free of the data (other than the constant 0)."""
+    fi = prog.func("hosvd.hosvd")
+    desc = "hosvd rank threshold scales with the data: no data-free floor, cap or offset"
+    ds = A.single_defs(fi.node).get("eigsumthresh")
+    if not ds:
+        res.undecided("SCALE", fi.short, desc, prog.loc(fi), "threshold variable not found")
+        return
+    for d in ds:
+        absolute = A.absolute_operands(d.value, {"normxsqr", "input_tensor"})
+        mentions = any(isinstance(n, ast.Name) and n.id in ("normxsqr", "input_tensor") for n in ast.walk(d.value))
+        if absolute:
+            res.bad("SCALE", fi.short, desc, prog.loc(fi, d),
+                    f"`{ast.unparse(absolute[0])}` in `{ast.unparse(d.value)[:120]}` does not scale with the data: hosvd(c*X) selects "
+                    "other ranks than hosvd(X) once c is small (or large) enough")
+        elif mentions:
+            res.ok("SCALE", fi.short, desc, prog.loc(fi, d), ast.unparse(d.value)[:120])
+        else:
+            res.undecided("SCALE", fi.short, desc, prog.loc(fi, d), "the threshold does not mention the data norm")
+
+
 def check(prog: Program, res: Result, tier: str) -> None:
     res.explanation = __doc__.split("\n\n", 1)[1]
     res.assumptions = ["print / logging / f-string formatting have no effect on program state",
                        "normalize / arrange / redistribute / fixsigns change only the parameterisation of a Kruskal tensor (C08)"]
-    res.floors = {"TAINT": 30, "RNG": 8, "ROWS": 2, "EFFECT": 17}
+    res.floors = {"TAINT": 30, "RNG": 8, "ROWS": 2, "EFFECT": 17, "SCALE": 1}
     rows_independent(prog, res)
     eng = al.Engine(prog)
     eng.solve()
@@ -443,6 +468,7 @@ def check(prog: Program, res: Result, tier: str) -> None:
     res.analysed["tainted_regions"] = total
     rng_rule(prog, res)
     effect_rule(prog, res)
+    scale_rule(prog, res)
     fx2 = ast.parse("def f(init):\n    init.copy().normalize('all')\n    return init\n")
     fi2 = FuncInfo("pyttb.fixture.f", "pyttb.fixture", None, "f", fx2.body[0], prog.functions[next(iter(prog.functions))].path)
     tmp2 = Result("C18")
